@@ -1332,6 +1332,8 @@ class Mesh:
             # assumed an array of nodes
             return nodes
         elif isinstance(nodes, (list, set)):
+            if len(nodes) == 0:
+                return np.array([], dtype=np.int32)
             # Recurse over the list, building an array of all matching elements
             return np.unique(
                 np.concatenate(
@@ -1363,6 +1365,8 @@ class Mesh:
             # Default behavior.
             return self.boundary_facets()
         elif isinstance(facets, (tuple, list, set)):
+            if len(facets) == 0:
+                return np.array([], dtype=np.int32)
             # Recurse over the list, building an array of all matching facets
             return np.unique(
                 np.concatenate(
@@ -1406,6 +1410,8 @@ class Mesh:
             # an boolean array with True for elements that should be included.
             return self.elements_satisfying(elements)
         elif isinstance(elements, (tuple, list, set)):
+            if len(elements) == 0:
+                return np.array([], dtype=np.int32)
             # Recurse over the list, building an array of all matching elements
             return np.unique(
                 np.concatenate(
